@@ -58,10 +58,29 @@ var (
 	// injected fault (optional): the n-th mutating call under the watched root, counted from Reset, is not performed
 	// and returns ErrInjected (an I/O error of a healthy process, as opposed to the death of the process)
 	failAt int
+	// the same for calls that only read (open, stat, readfile, readdir), counted separately: the n-th such call under
+	// the watched root since Reset fails
+	failReadAt int
+	reads      int
 )
 
 // ErrInjected is what a call hit by FailAt returns.
 var ErrInjected = &os.PathError{Op: "vfs", Path: "injected fault", Err: syscall.EIO}
+
+// FailReadAt makes the n-th (1-based) reading call (open, stat, readfile, readdir) under the watched root fail with
+// ErrInjected, once. ReadCount tells how many such calls were seen since Reset.
+func FailReadAt(n int) {
+	mu.Lock()
+	failReadAt = n
+	mu.Unlock()
+}
+
+// ReadCount returns the number of reading calls seen under the watched root since Reset.
+func ReadCount() int {
+	mu.Lock()
+	defer mu.Unlock()
+	return reads
+}
 
 // FailAt makes the n-th (1-based) mutating call under the watched root fail with ErrInjected, once.
 func FailAt(n int) {
@@ -130,7 +149,7 @@ func Reset(watchRoot string, logging bool) {
 	count, armAt, armMode = 0, 0, 0
 	steps, pauseIn, pauseInFn = 0, 0, nil
 	matchKind, matchSuffix = "", ""
-	failAt = 0
+	failAt, failReadAt, reads = 0, 0, 0
 	select {
 	case <-crashed:
 	default:
@@ -243,6 +262,18 @@ func step(kind, path, to string, mut bool) int {
 		}
 	}
 	op := Op{Kind: kind, Path: p, To: to, Mut: mut}
+	if !mut && under(p, watch) {
+		reads++
+		if failReadAt != 0 && reads == failReadAt {
+			failReadAt = 0
+			op.Kind += "!fault"
+			if logOn {
+				log = append(log, op)
+			}
+			mu.Unlock()
+			return doFail
+		}
+	}
 	hit := false
 	if mut && under(p, watch) {
 		count++
@@ -251,7 +282,7 @@ func step(kind, path, to string, mut bool) int {
 			hit = true
 		}
 		if failAt != 0 && count == failAt {
-			failAt = 0
+			failAt, failReadAt, reads = 0, 0, 0
 			op.Kind += "!fault"
 			if logOn {
 				log = append(log, op)
@@ -477,12 +508,16 @@ func OpenFile(n string, flag int, perm os.FileMode) (*File, error) {
 }
 
 func Stat(n string) (fs.FileInfo, error) {
-	step("stat", n, "", false)
+	if step("stat", n, "", false) == doFail {
+		return nil, ErrInjected
+	}
 	return os.Stat(n)
 }
 
 func Open(n string) (*File, error) {
-	step("open", n, "", false)
+	if step("open", n, "", false) == doFail {
+		return nil, ErrInjected
+	}
 	f, err := os.Open(n)
 	if err != nil {
 		return nil, err
@@ -491,11 +526,15 @@ func Open(n string) (*File, error) {
 }
 
 func ReadFile(n string) ([]byte, error) {
-	step("readfile", n, "", false)
+	if step("readfile", n, "", false) == doFail {
+		return nil, ErrInjected
+	}
 	return os.ReadFile(n)
 }
 
 func ReadDir(n string) ([]os.DirEntry, error) {
-	step("readdir", n, "", false)
+	if step("readdir", n, "", false) == doFail {
+		return nil, ErrInjected
+	}
 	return os.ReadDir(n)
 }
